@@ -576,6 +576,97 @@ impl Check for C08Large {
     }
 }
 
+/// The slice relation on rows that carry their input position: --skip must not renumber what
+/// it lets through (&index, &index-in-file, line numbers are those of the unlimited run).
+#[derive(Clone, Debug, Serialize, Deserialize)]
+pub struct Case08P {
+    pub n: usize,
+    pub skip: u64,
+    pub take: Option<u64>,
+    /// 0 selections only, 1 with a filter, 2 with a sort, 3 with --unique, 4 values spread over two files
+    pub variant: u8,
+}
+pub struct C08Positions;
+impl Check for C08Positions {
+    type Case = Case08P;
+    fn name(&self) -> &'static str {
+        "C08.positions"
+    }
+    fn cases(&self, _t: Tier) -> u64 {
+        0
+    }
+    fn strategy(&self, _t: Tier) -> BoxedStrategy<Case08P> {
+        Just(Case08P { n: 3, skip: 1, take: Some(1), variant: 0 }).boxed()
+    }
+    fn check(&self, c: &Case08P) -> CaseResult {
+        let vals = ["1", "\"a\"", "2", "null", "2", "[3]", "1", "{\"k\":1}", "7"];
+        let mut input = String::new();
+        for i in 0..c.n {
+            input.push_str(vals[i % vals.len()]);
+            input.push_str(if i % 3 == 2 { "\n" } else { " " });
+        }
+        let mut base: Vec<String> = vec!["--select=.=v".into(), "--select=&index=i".into(), "--select=&index-in-file=f".into(), "--select=&started-at-line-number=l".into()];
+        match c.variant {
+            1 => base.push("--filter=(not (null? .))".into()),
+            2 => base.push("--sort-by=&index=DESC".into()),
+            3 => base.push("--unique".into()),
+            _ => {}
+        }
+        let mut files: Vec<std::path::PathBuf> = Vec::new();
+        let dir = crate::fifo::tmp_dir();
+        let stdin: Vec<u8> = if c.variant == 4 {
+            static SEQ: std::sync::atomic::AtomicU64 = std::sync::atomic::AtomicU64::new(0);
+            let k = SEQ.fetch_add(1, std::sync::atomic::Ordering::Relaxed);
+            let cut = input.len() / 2;
+            let cut = (0..=cut).rev().find(|p| input.as_bytes().get(*p).map(|b| *b == b' ' || *b == b'\n').unwrap_or(true)).unwrap_or(0);
+            for (j, part) in [&input[..cut], &input[cut..]].iter().enumerate() {
+                let p = dir.join(format!("c08p-{}-{}.json", k, j));
+                if std::fs::write(&p, part).is_err() {
+                    return CaseResult::Discard("cannot write temp file".into());
+                }
+                base.push(p.to_str().unwrap().to_string());
+                files.push(p);
+            }
+            Vec::new()
+        } else {
+            input.clone().into_bytes()
+        };
+        let all = run(&base, &stdin);
+        let mut a = base.clone();
+        if c.skip > 0 {
+            a.insert(0, format!("--skip={}", c.skip));
+        }
+        if let Some(t) = c.take {
+            a.insert(0, format!("--take={}", t));
+        }
+        let lim = run(&a, &stdin);
+        for p in &files {
+            let _ = std::fs::remove_file(p);
+        }
+        if !all.res.is_ok() || !lim.res.is_ok() {
+            return CaseResult::Fail(format!("run failed: {} / {} (args {:?})", all.res.short(), lim.res.short(), a));
+        }
+        let rows = lines(&all.stdout);
+        let s = (c.skip as usize).min(rows.len());
+        let e = c.take.map(|t| (s + t as usize).min(rows.len())).unwrap_or(rows.len());
+        let got = lines(&lim.stdout);
+        if got != rows[s..e] {
+            return CaseResult::Fail(format!("{:?} printed rows that are not rows {}..{} of the unlimited result (positions included): got {} expected {}", a, s, e, esc_trunc(&lim.stdout, 300), esc_trunc(&rows[s..e].join(&b"\n"[..]), 300)));
+        }
+        CaseResult::Pass(Info::new(s > 0 && e > s).class_if(c.variant == 4, "two_files").class_if(s > 0, "rows_skipped").obs(json!({"rows": rows.len(), "kept": e - s})))
+    }
+}
+
+pub fn run_positions(ctx: &mut Ctx) {
+    let takes: [Option<u64>; 6] = [None, Some(0), Some(1), Some(2), Some(3), Some(9)];
+    let total = 10 * 6 * 6 * 5;
+    run_enum(ctx, "C08.positions", total, "0..9 values x --skip 0..5 x --take absent,0,1,2,3,9 x (selections only, filter, sort, --unique, two files), every row carrying &index, &index-in-file and its line number", move |idx| {
+        let c = Case08P { n: (idx % 10) as usize, skip: (idx / 10) % 6, take: takes[((idx / 60) % 6) as usize], variant: ((idx / 360) % 5) as u8 };
+        let res = C08Positions.check(&c);
+        (Box::new(move || serde_json::to_value(&c).unwrap()), res)
+    });
+}
+
 pub fn run_all(ctx: &mut Ctx) {
     ctx.rule = "C08.large: 200..6000 rows (70000 in the thorough tier) derived from a seed, 1..4 distinct sort keys (long runs of ties), rows without the key, 0..2 sort keys, ASC/DESC, optionally --unique over repeating rows and group-by/merge, skip in {0,1,2,7, random, 1000..1100, n-1}, take in {absent,0,1,2,10,100,1023..1025, random, n}; same slice relation; non-trivial = >= 1000 unlimited rows and a limit that cuts. C08.expr_slice: the same slice relation on configurations with generated expressions in every option (generator of C03: --set, --split-by, --filter, --select, --unique, 0..3 --sort-by, inputs that tie), plus: with --merge the single array is exactly that slice, with --group-by exactly one object whose rows all come from that slice. C08.slice: 0..40 records (keys from small pools of the universe, so ties are common) x generated pipeline (split, filter, select, unique, 0..3 sort keys, group-by/merge) x skip 0..6 x take absent|0..6; relation: rows(with limits) = rows(without)[S..S+T] byte for byte, or for group/merge the single output equals the documented grouping of that slice. non-trivial = >= 2 unlimited rows and (the cut falls inside a run of tied sort keys, or a multi-key sort is cut, or group/merge with a limit, or unique/split is cut). C08.exhaustive: every stream up to length 4 (quick) / 5 (thorough) over 4 keys x 8 fixed pipelines x all 56 limit pairs; distinct = enumeration index".into();
     ctx.assumptions = vec!["the unlimited run of the same pipeline is the reference (metamorphic, jawk vs jawk); its own correctness is C03/C07/C09/C10's subject".into()];
@@ -583,8 +674,10 @@ pub fn run_all(ctx: &mut Ctx) {
     C08Large.run(ctx);
     C08Slice.run(ctx);
     C08ExprSlice.run(ctx);
+    ctx.rule.push_str(". C08.positions: the slice relation on rows that carry &index, &index-in-file and their line number (0..9 values x skip 0..5 x take absent/0/1/2/3/9 x selections only, filter, sort, --unique, two files), enumerated: --skip does not renumber what it lets through");
+    run_positions(ctx);
 }
 
 pub fn checks() -> Vec<Box<dyn DynCheck>> {
-    vec![Box::new(C08Slice), Box::new(C08Exhaustive), Box::new(C08ExprSlice), Box::new(C08Large)]
+    vec![Box::new(C08Slice), Box::new(C08Exhaustive), Box::new(C08ExprSlice), Box::new(C08Large), Box::new(C08Positions)]
 }
